@@ -184,8 +184,12 @@ func TestVerifCrossVMCases(t *testing.T) {
 	vhIn(&in)
 	out := vhOpenOut()
 	defer out.Close()
+	progress := os.Getenv("VERIF_PROGRESS")
 	for i, c := range in.Cases {
 		o := cvObs{I: i}
+		if progress != "" && (c.Kind == "count" || c.Kind == "byte") {
+			os.WriteFile(progress, []byte(fmt.Sprint(i)), 0644)
+		}
 		p := cvCatch(func() {
 			switch c.Name {
 			case "Encode":
